@@ -8,7 +8,7 @@ from vlib import Raw, coq
 U64 = 2**64 - 1
 U32 = 2**32 - 1
 KINDS = ["taken", "nottaken", "notexec"]
-COUNTS = [0, 1, 2, 7, 2**32 - 1, 2**32, 2**32 + 1, 2**53, 2**63 - 1, 2**63, U64 - 1, U64]
+COUNTS = [0, 1, 2, 7, 2**32 - 1, 2**32, 2**32 + 1, 2**53 - 1, 2**53, 2**53 + 1, 2**54 + 1, 2**63 - 1, 2**63, 2**63 + 1, U64 - 1, U64]
 LINES = [1, 2, 3, 4, 5, 7, 10, 100, 65536, 2**31, U32]
 FNAMES = gen.NAMES + ["_ZN3FooIiE3barEv", "Foo<int, std::pair<a, b> >::bar(int, char)", "operator,", "f:g", "λ", "a\tb", "0"]
 PATHS = gen.PATHS + ["/usr/include/c++/7/bits/stl_vector.h", "C:/x/y.c", "a:b.c", "x,y.c", "dir with space/é日本.cpp", "f"]
@@ -110,7 +110,12 @@ def text_report(rng, files):
     for f in files:
         recs = []
         for g in f["funcs"]:
-            recs.append(("function", dig(rng, g["start"]), str(g["count"]).encode(), g["name"]))
+            if rng.random() < 0.2:
+                # old gcov prints a call counter above 2^63 through a signed type: a negative number, which is NOT zero
+                g["count"] = rng.choice([2**63, 2**63 + 1, U64, U64 - 4, rng.randrange(2**63, 2**64)])
+                recs.append(("function", dig(rng, g["start"]), str(g["count"] - 2**64).encode(), g["name"]))
+            else:
+                recs.append(("function", dig(rng, g["start"]), str(g["count"]).encode(), g["name"]))
         for l in f["lines"]:
             c = l["count"]
             if rng.random() < 0.12:
@@ -156,7 +161,7 @@ def gen_text_report(rng):
             elif r < 0.65:
                 recs.append(("branch", dig(rng, rng.choice(lines)), rng.choice(KINDS)))
             elif r < 0.85 and names:
-                recs.append(("function", dig(rng, rng.choice(LINES)), str(rng.choice([0, 0, 1, 5, U64, 10**25])).encode(),
+                recs.append(("function", dig(rng, rng.choice(LINES)), str(rng.choice([0, 0, 1, 5, U64, 10**25, -1, -5, -2**63, -10**25])).encode(),
                              rng.choice(names).encode()))
             else:
                 recs.append(("other",) + rng.choice(OTHER))
@@ -495,7 +500,7 @@ def read_text_report(data):
             secs.append({"name": val, "crlf": crlf, "recs": []})
             continue
         if key == b"function":
-            m = re.fullmatch(rb"(\d+),(0|[1-9]\d*),(.*)", val, re.S)
+            m = re.fullmatch(rb"(\d+),(0|-?[1-9]\d*),(.*)", val, re.S)
             rec = ("function", m.group(1), m.group(2), m.group(3)) if m else None
         elif key == b"lcount":
             m = re.fullmatch(rb"(\d+),(-?)(\d+)", val)
